@@ -1,4 +1,5 @@
 import PhononModel.Lemmas.ShortestPairs
+import PhononModel.Lemmas.ShortestPairsTol
 /-!
 # C05 — shortest-vector tables are the complete set of minimum-image vectors
 
@@ -115,6 +116,30 @@ theorem impl_eq_spec_orthogonal (G : M3 ℚ) (d : V3 ℚ) (hs : isSymm G = true)
     h.p0 h.p1 h.p2 hd
   exact ((impl_subset_spec_iff G hs hp d window65).mpr w) v
 
+/-! ### the tolerance clause ("within the symmetry tolerance") -/
+
+/-- **tolerance_rule_is_in_length**: the model's rational test `tieWithin tol m2 l2` on squared lengths is
+exactly the kernels' comparison of lengths `√l2 − √m2 < tol`. -/
+theorem tolerance_rule_is_in_length (tol m2 l2 : ℚ) (hm : 0 ≤ m2) (hml : m2 ≤ l2) (ht : 0 < tol) :
+    tieWithin tol m2 l2 = true ↔ Real.sqrt (l2 : ℝ) - Real.sqrt (m2 : ℝ) < (tol : ℝ) :=
+  tieWithin_iff_sqrt tol m2 l2 hm hml ht
+
+/-- what the kernels store with tolerance `tol`: exactly the images over the search points whose
+length is within `tol` of the minimum over the search points. -/
+theorem impl_tol_is_window_near_minimum (tol : ℚ) (G : M3 ℚ) (d : V3 ℚ) (pts : List (V3 ℤ)) (m : ℚ)
+    (hm : minList (pts.map (fun p => len2 G (d + p.toRat))) = some m) (v : V3 ℚ) :
+    v ∈ pairShortestTol tol G d pts ↔
+      ∃ p ∈ pts, v = d + p.toRat ∧ tieWithin tol m (len2 G (d + p.toRat)) = true :=
+  mem_pairShortestTol tol G d pts m hm v
+
+/-- every exact tie is stored for every positive tolerance (no tie is missing) -/
+theorem exact_ties_within_tolerance (tol : ℚ) (ht : 0 < tol) (G : M3 ℚ) (d : V3 ℚ) (pts : List (V3 ℤ)) (v : V3 ℚ)
+    (hv : v ∈ pairShortest G d pts) : v ∈ pairShortestTol tol G d pts :=
+  pairShortest_subset_tol tol ht G d pts v hv
+
+example : (pairShortestTol (1/100000) M3.one ⟨5000001/10000000, 0, 0⟩ window65).length = 2 := by decide +kernel
+example : (pairShortestTol (1/100000) M3.one ⟨5001/10000, 0, 0⟩ window65).length = 1 := by decide +kernel
+
 /-- the window really has 65 distinct points and is what `np.unique` returns (sorted) -/
 theorem window65_card : window65.length = 65 ∧ window65.Nodup := by decide +kernel
 
@@ -213,6 +238,9 @@ end PhononModel.C05
 #print axioms PhononModel.C05.impl_subset_spec_iff
 #print axioms PhononModel.C05.window_complete_partial
 #print axioms PhononModel.C05.impl_eq_spec_orthogonal
+#print axioms PhononModel.C05.tolerance_rule_is_in_length
+#print axioms PhononModel.C05.impl_tol_is_window_near_minimum
+#print axioms PhononModel.C05.exact_ties_within_tolerance
 #print axioms PhononModel.C05.window65_card
 #print axioms PhononModel.C05.multiplicity_eq_card
 #print axioms PhononModel.C05.no_duplicates
